@@ -143,7 +143,7 @@ def execute(case, tape):
     return out
 
 
-BUDGET = {"quick": (16000, 60), "thorough": (300000, 900)}
+BUDGET = {"quick": (64000, 75), "thorough": (1200000, 1500)}
 REAL = ["pydcop.algorithms.maxsum", "pydcop.algorithms.amaxsum",
         "pydcop.infrastructure.computations (SynchronousComputationMixin)",
         "pydcop.computations_graph.factor_graph", "pydcop.dcop.relations"]
